@@ -244,6 +244,13 @@ func (ir *IntrospectionResolver) resolveField(schema *ast.Schema, field *ast.Fie
 			result[f.Alias] = deprecated
 		case "deprecationReason":
 			result[f.Alias] = deprecatedReason
+		case "defaultValue":
+			// input fields are resolved through this function too
+			if field.DefaultValue != nil {
+				result[f.Alias] = field.DefaultValue.String()
+			} else {
+				result[f.Alias] = nil
+			}
 		}
 	}
 
